@@ -84,7 +84,7 @@ class TorchCalls(TorchOps):
             if isinstance(lst, ListV) and lst.items is not None:
                 return ListV(items=tuple(ListV(items=(Const(i), x), kind="tuple") for i, x in enumerate(lst.items)))
             if isinstance(lst, ListV):
-                idx = TV(kind="pyint", idx_of=lst.over, note="enumerate-index")
+                idx = TV(kind="pyint", idx_of=lst.over, note="enumerate-index", origin=frozenset(["loop-index"]))
                 return replace(lst, elem=ListV(items=(idx, lst.elem), kind="tuple"))
             return self.unk("enumerate", node)
         if fn in ("reversed", "sorted"):
@@ -233,7 +233,7 @@ class TorchCalls(TorchOps):
         start = ts[0] if len(ts) >= 2 else None
         full_rows = stop is not None and stop.size_of == "R" and (start is None or self.const_int(args[0]) == 0) and len(args) < 3
         elem = TV(kind="pyint", idx_of="R" if full_rows else None, note="range-index", poly=None,
-                  p=True, origin=stop.origin if stop is not None else frozenset())
+                  p=True, origin=(stop.origin if stop is not None else frozenset()) | {"loop-index"})
         return ListV(items=None, elem=elem, kind="list", over="R" if full_rows else None,
                      order=(("range", repr(stop.poly) if stop is not None and stop.poly is not None else "?"), "same"),
                      length=stop if len(args) == 1 else None)
